@@ -298,7 +298,7 @@ def DebugImpl.render (d : DebugImpl) : Toks :=
 
 inductive DefVal where
   | into (ty : Ty) (e : Toks)
-  | raw (e : Toks)
+  | raw (e : Toks) (blockLead : Bool := false)
   | dflt (ty : Ty)
 deriving Inhabited
 
@@ -306,7 +306,7 @@ deriving Inhabited
 def DefaultH.valueFor (a : DefaultH) (ty : Ty) : Option DefVal :=
   match a.value with
   | none => none
-  | some (e, cls) => some (if cls == .strLit || cls == .path then .into ty e else .raw e)
+  | some (e, cls) => some (if cls == .strLit || cls == .path then .into ty e else .raw e (cls == .blockLead))
 
 def HAttrs.defaultValue (h : HAttrs) (ty : Ty) : Option DefVal :=
   match h.dflt with | some a => a.valueFor ty | none => none
@@ -362,12 +362,14 @@ def buildDefaultEnum (en : ItemEnum) (e : Entry) (h : HAttrs) (variants : List V
 
 def DefVal.render : DefVal → Toks
   | .into ty e => absPath ["core", "convert", "Into"] ++ "::" :: angle ty.toks ++ "::" :: "into" :: paren e
-  | .raw e => e
+  | .raw e _ => e
   | .dflt ty => ufcs ty.toks Kind.dflt.path "default" ++ ["(", ")"]
 
 def DefaultImpl.render (d : DefaultImpl) : Toks :=
   let tr := Kind.dflt.path
   let value : Toks := match d.body with
+    -- a type-level value is the tail expression of `fn default()`: parenthesized if it starts with a block-like expression
+    | .value (.raw e true) => paren e
     | .value v => v.render
     | .ctor path src vals => path ++ ctorArgs src (vals.map DefVal.render)
   implItem autoDerived d.generics.implToks tr (thisTyToks d.name d.generics)
